@@ -186,6 +186,15 @@ def run_lattice(case, ctx):
         else:
           body = "%s : %s\n%s : %s\n" % (cut_n, cut, dr_n, step)
         text = "[Tabulation]\ntarget : setfl\n" + body
+        if k % 3 == 1:
+          # [Variables] entries that merely share their NAMES with grid options (the third option of this grid, all three of
+          # the other): variables are not options, the two given in [Tabulation] still fix the grid (seeded change C11r10
+          # read the section through a call that merges the variables in)
+          third = {"nr_dr": cut_n, "cutoff_nr": dr_n, "cutoff_dr": nr_n}[combo]
+          others = ("nrho", "drho", "cutoff_rho") if grid == "r" else ("nr", "dr", "cutoff")
+          decoy = "[Variables]\n%s = %s\n%s = 77\n%s = 0.125\n%s = 9.625\n\n" % (third, "41" if third == nr_n else "0.375", others[0], others[1], others[2])
+          text = (decoy + text) if k % 2 else (text + "\n" + decoy)
+          ctx.count("variables_named_like_grid_options")
         ctx.count("parser_executions")
         try:
           t = tab_of(text)
